@@ -563,9 +563,13 @@ def c20_post_run(vc, scr, spec, res, children):
                                    "what": "data race (%d reports) between %s [%s] and %s [%s]" % (info["n"], fa, la, fb, lb),
                                    "witness": {"report": info["text"]}})
     res.obs["race_distinct_pairs"] = len(pairs)
-    missing = res.extra.get("required_overlaps_missing")
+    # the workload must have produced the overlaps the property names (summed over the child processes)
+    required = ["post||post", "getmessages||post", "page:/status/sessions||post", "page:/status/state||post", "page:/metrics||post",
+                "lookup-miss||post", "gline||page:/config", "gline||page:/status", "expire-sweep||gline", "expire-sweep||post", "post||snapshot"]
+    missing = [r for r in required if res.obs.get("overlap." + r, 0) < 5]
+    res.extra.pop("required_overlaps_missing", None)
     if missing:
-        res.broken.append({"why": "required operation pairs never overlapped: %s" % missing})
+        res.broken.append({"why": "required operation pairs overlapped fewer than 5 times: %s" % missing})
 
 
 register("C20", title="no data races", pkg=".", race=True,
